@@ -146,6 +146,18 @@ def hazards():
                  [(7, "1s"), (0, "1m"), (9, "1h")], [(7, "1s"), (9, "1m"), (0, "1h")], [(0, "2s"), (0, "3s")], [(300, "60s"), (400, "1m")]):
         hz.append(("rate limits %s" % ", ".join("%d per %s" % l for l in lims), "either", rls(lims)))
 
+    # valid periods meeting state a fresh directory never has: a stored certificate that is already due (expired an hour ago) while a
+    # random advance is configured at one of the three levels
+    def due_with_jitter(level, period):
+        def f(cfg, sc):
+            flowcheck.install_pair(cfg["certificate"][0], "pair")(sc)
+            target = cfg["certificate"][0] if level == "certificate" else cfg["endpoint"][0] if level == "endpoint" else cfg.setdefault("global", {})
+            target["random_early_renew"] = period
+            return cfg
+        return f
+    for level, period in (("certificate", "2d"), ("endpoint", "1h30m"), ("global", "1s"), ("certificate", "0s")):
+        hz.append(("stored certificate already due, random_early_renew = %s at the %s level" % (period, level), "running", due_with_jitter(level, period)))
+
     # powers of two and their neighbours (truncating casts, sign bits) with periods that take the dividing branch of the limiter
     for k in (8, 16, 31, 32, 33, 63, 64):
         for d in (-1, 0, 1):
